@@ -63,7 +63,8 @@ RULE = (
     "plus a deterministic constraint stream: every constraint-owning existing_type (5) x subset of the non-type attributes (32) x "
     "with/without type_ x dialect x schema = 4480 calls judged by Spec.Alter.constraintOk; a kinds battery (type classes, '' / "
     "func.now() / DefaultClause defaults, schema '' / quoted_name, postgresql_using '') and a configuration battery (literal_binds, "
-    "transactional_ddl, empty/overridden batch separators), each crossed with all 64 requested subsets x 7 dialects; a names battery "
+    "transactional_ddl, empty/overridden batch separators), a type-pairs battery (closely related type_/existing_type pairs, both "
+    "directions x extra requested attribute) each crossed with all 64 requested subsets x 7 dialects; a names battery "
     "on every dialect (column / new names of the identifier-quoting classes -- mixed case, reserved word, space, quote character, the "
     "dialect's closing delimiter -- and table / schema names 'My Table' / 'select' / 'My Schema': 64 subsets x 2 x 6 names x 7 dialects = "
     "5376 calls; delimited identifiers are un-quoted per dialect, the strings inside the mssql sp_rename / drop-default-batch literals "
@@ -335,7 +336,7 @@ class Batch:
                              "%s: the emitted statements do not take the column to 'existing overridden by requested' "
                              "(keep=%s requested=%s final=%s)" % (kind, s["keep"], s["requested"], json.dumps(s["final"])),
                              impl={"stmts": impl_view["stmts"], "err": r["err"], "script": r["text"][:1500],
-                                   "default_kinds": [vk[0], vk[1]]},
+                                   "default_kinds": [vk[0], vk[1]], "only_default": s.get("exactNoDefault")},
                              tags=[kind, dialect])
         self.cases.clear()
 
@@ -420,6 +421,24 @@ def names_battery(rng):
                     yield dialect, req
 
 
+def type_pairs_battery(rng):
+    """type_ / existing_type pairs of closely related types (VARCHAR(50)/VARCHAR, NUMERIC(10)/NUMERIC(10,2), with/without
+    collation, INTEGER/INTEGER[], FLOAT/DOUBLE PRECISION, DECIMAL/NUMERIC), both directions, alone and with each other
+    requested attribute, with and without the remaining existing_* values"""
+    other = [a for a in REQ_ATTRS if a != "type"]
+    for dialect in ai.DIALECTS:
+        for a, b in ai.TYPE_PAIRS:
+            if not (ai.type_ok(dialect, a) and ai.type_ok(dialect, b)):
+                continue
+            for new, old in ((a, b), (b, a)):
+                for extra in [()] + [(x,) for x in other] + [tuple(other)]:
+                    for stated in (("ex_type",), tuple(EX_ATTRS)):
+                        req = draw_values(rng, ("type",) + extra, stated, len(extra) % 2 == 1, False)
+                        req["type"] = new
+                        req["ex_type"] = old
+                        yield dialect, req
+
+
 def config_battery(rng):
     """context configurations (literal_binds, transactional_ddl given, batch separators overridden/empty): the emitted
     statements must not depend on them -- every requested subset x (nothing stated | everything stated) x schema"""
@@ -458,6 +477,9 @@ def run(ctx, rng_name="main", draws=None, budget_s=None):
     for dialect, req in names_battery(ctx.rng(rng_name + "/names")):
         b.add(dialect, req)
         ctx.hist("stream", "names")
+    for dialect, req in type_pairs_battery(ctx.rng(rng_name + "/typepairs")):
+        b.add(dialect, req)
+        ctx.hist("stream", "typepairs")
     for dialect, req in config_battery(ctx.rng(rng_name + "/config")):
         b.add(dialect, req)
         ctx.hist("stream", "config:" + req["config"])
@@ -620,7 +642,9 @@ def classify(failure):
         stmts = impl.get("stmts") or []
         # PostgreSQL, no exception, an identity is involved on one side only (or the existing default is unstated),
         # and the only default-related statement is the identity ALTER (SET GENERATED / SET START WITH / nothing)
+        # ... and the default is the ONLY attribute that is wrong (Lean verdict with the default request taken out)
         if (impl.get("err") is None
+                and impl.get("only_default") is True
                 and kinds in (("identity", "unset"), ("identity", "plain"), ("plain", "identity"))
                 and any(st["k"] == "identityAlter" for st in stmts)
                 and not any(st["k"] in ("default", "identityAdd", "identityDrop") for st in stmts)):
